@@ -276,7 +276,31 @@ func runUnusableTestedFirst(c *Ctx) {
 		fa, ok := ld.X.(*ssa.FieldAddr)
 		return ok && fieldAddrIs(fa, "Client", "unusable")
 	}
-	bad := PathQ{Stop: readsUnusable, Goal: instrPred(dispatch)}.FromEntry(fn)
+	// (the test may be made by a same-package helper called at the top of HandleCommand)
+	stop := func(in ssa.Instruction) bool {
+		if readsUnusable(in) {
+			return true
+		}
+		ci := asCall(in)
+		if ci == nil {
+			return false
+		}
+		if _, isDefer := in.(*ssa.Defer); isDefer {
+			return false
+		}
+		cal := w.Callee(ci)
+		if cal == nil || cal.Pkg != fn.Pkg || !w.inModule(cal) || dispatch(ci) {
+			return false
+		}
+		found := false
+		EachInstr(cal, func(x ssa.Instruction) {
+			if readsUnusable(x) {
+				found = true
+			}
+		})
+		return found
+	}
+	bad := PathQ{Stop: stop, Goal: instrPred(dispatch)}.FromEntry(fn)
 	c.CheckAt("C09.R6", "(*centrifuge.Client).HandleCommand: the unusable flag is read on every path to the dispatch", w.Pos(fn.Pos()), bad == nil,
 		"a connection that answered its connect with an error is authenticated but unusable: a command that skips the test is processed and replied to instead of closing the connection with bad request"+instrAt(w, bad))
 }
